@@ -1,4 +1,5 @@
 import EaModel.Lemmas.Least
+import EaModel.Lemmas.Regular
 import EaModel.Generated
 /-!
 # C05 — earliest admissible occurrence: no missed run, filters honoured
@@ -10,8 +11,12 @@ after the reference instant. Occurrence sets are defined declaratively (`Adm`):
 * interval: the grid `start + m·interval` for every integer `m`, admitted by the filter;
 * group: the union of the members' admissible occurrences, admitted by the group filter.
 
-The zone enters through `TimeRegular` (candidates of successive local dates increase) — an explicit,
-executable hypothesis that the harness evaluates for every zone / time / policy it generates.
+The zone enters through `TimeRegular` (candidates of successive local dates increase). That hypothesis is
+*proved* here for every sorted transition table whose UTC offsets stay within a window of less than
+`24 h − 121 min` (`getNext_least_narrow`, `Lemmas/Regular.lean`; the side condition `Zone.narrowB` is executable
+and evaluated by the driver for the table of every case), and it is false for a table that skips a whole local
+day (`dateline_zone_not_regular`). For the remaining tables the harness evaluates the hypothesis for every zone /
+time / policy it generates.
 -/
 namespace Ea.C05
 
@@ -133,5 +138,63 @@ theorem time_least_fixed_offset (env : Env) (o : Int) (hz : env.zone = { init :=
     (f : Option Filter) (h0 : 0 ≤ r.tod) (h1 : r.tod < NS_PER_DAY) (dt x : Int)
     (h : getNext env (.time r f) dt = .ok x) : LeastAfter (Adm env (.time r f)) dt x :=
   getNext_least env (.time r f) (by simp only [InFragment]; rw [hz]; exact timeRegular_fixed_offset o r h0 h1) dt x h
+
+/-! ### the regularity hypothesis proved from the transition table -/
+
+mutual
+/-- the syntactic fragment of C05: time of day (a time within the day) / interval with a start / groups of them -/
+def Wf : Producer → Prop
+  | .time r _ => 0 ≤ r.tod ∧ r.tod < NS_PER_DAY
+  | .interval (some _) _ _ => True
+  | .group ps _ => AllWf ps
+  | _ => False
+def AllWf : List Producer → Prop
+  | [] => True
+  | p :: ps => Wf p ∧ AllWf ps
+end
+
+mutual
+theorem inFragment_of_narrow (env : Env) (hz : env.zone.narrowB = true) : ∀ p : Producer, Wf p → InFragment env p
+  | .time r _, h => by
+      simp only [Wf] at h; simp only [InFragment]
+      exact timeRegular_of_narrowB env.zone hz r h.1 h.2
+  | .interval (some _) _ _, _ => by simp [InFragment]
+  | .interval none _ _, h => by simp [Wf] at h
+  | .group ps _, h => by
+      simp only [Wf] at h; simp only [InFragment]
+      exact allInFragment_of_narrow env hz ps h
+  | .offset _ _ _, h => by simp [Wf] at h
+  | .earliest _ _ _, h => by simp [Wf] at h
+  | .latest _ _ _, h => by simp [Wf] at h
+  | .jitter _ _ _ _, h => by simp [Wf] at h
+  | .sun _ _, h => by simp [Wf] at h
+theorem allInFragment_of_narrow (env : Env) (hz : env.zone.narrowB = true) :
+    ∀ ps : List Producer, AllWf ps → AllInFragment env ps
+  | [], _ => by simp [AllInFragment]
+  | p :: ps, h => by
+      simp only [AllWf] at h; simp only [AllInFragment]
+      exact ⟨inFragment_of_narrow env hz p h.1, allInFragment_of_narrow env hz ps h.2⟩
+end
+
+/-- **C05 without a hypothesis about dates**: in every zone whose transition table is sorted and whose UTC
+offsets span less than `24 h − 121 min` (`Zone.narrowB`, an executable test of the table) the computed next
+occurrence of any time / interval / group trigger, filters at every level, is the least admissible occurrence
+after the reference instant -/
+theorem getNext_least_narrow (env : Env) (hz : env.zone.narrowB = true) (p : Producer) (hp : Wf p) (dt r : Int)
+    (h : getNext env p dt = .ok r) : LeastAfter (Adm env p) dt r :=
+  getNext_least env p (inFragment_of_narrow env hz p hp) dt r h
+
+/-- a table with the shape of Europe/Berlin (+1 h / +2 h, two changes) passes the executable test … -/
+def zNarrow : Zone := { init := 1 * NS_PER_HOUR, trans := [(1000 * NS_PER_HOUR, 2 * NS_PER_HOUR), (5000 * NS_PER_HOUR, 1 * NS_PER_HOUR)] }
+example : zNarrow.narrowB = true := by decide
+/-- … a table that jumps across the date line (−10 h → +14 h, Pacific/Apia 2011) does not … -/
+def zDateline : Zone := { init := -10 * NS_PER_HOUR, trans := [(10 * NS_PER_HOUR, 14 * NS_PER_HOUR)] }
+example : zDateline.narrowB = false := by decide
+/-- … and there the hypothesis is indeed false: the skipped local day 0 (policy `later`) and day 1 share one candidate -/
+theorem dateline_zone_not_regular :
+    ¬ TimeRegular zDateline { tod := 12 * NS_PER_HOUR, skipped := .later } := by
+  intro h
+  have := h.mono 0 1 (22 * NS_PER_HOUR) (22 * NS_PER_HOUR) (by decide) (by decide) (by decide)
+  exact absurd this (by decide)
 
 end Ea.C05
